@@ -1,10 +1,10 @@
 (* C17 - Tian-Pearl c-factor identification returns the true c-factor. *)
 From Coq Require Import List Bool Arith.
-From Y0 Require Import Base.ListSet Graph.MixedGraph Dsl.Syntax Dsl.Build Alg.Id Alg.Tian Proofs.TianP Proofs.TianTotalP.
+From Y0 Require Import Base.ListSet Graph.MixedGraph Dsl.Syntax Dsl.Build Alg.Id Alg.Tian Proofs.TianP Proofs.TianTotalP Sem.Scm Proofs.IdSemP.
 Import ListNotations.
 
-(* Soundness (value = Q[C] in every compatible model) is not yet proved: it needs Sem/Scm.v and the c-factor
-   lemmas (DESIGN.md 5/C17). Proved on the model for all inputs: failure is reported only under Tian & Pearl's
+(* Soundness (value = Q[C] in every compatible model) is not proved: it needs a probabilistic semantics of expressions and the c-factor
+   lemmas (DESIGN.md 5/C17); the step the recursion rests on (Lemma 3) is proved in functional form at the end of this file. Proved on the model for all inputs: failure is reported only under Tian & Pearl's
    FAIL condition, at a district nested inside the input district. *)
 Theorem C17_failure_only_when_the_ancestral_set_is_the_whole_district fuel g C T q topo :
   identify_district_variables fuel g C T q topo = TFail ->
@@ -31,3 +31,41 @@ Proof. vm_compute. split; [auto|]. split; [reflexivity|]. eexists. reflexivity. 
 
 Print Assumptions C17_failure_only_when_the_ancestral_set_is_the_whole_district.
 Print Assumptions C17_identify_answers_or_fails_on_every_valid_input.
+
+(* Tian & Pearl's Lemma 3, on which the recursive step rests (Q[A] = sum over T \ A of Q[T] for A = An(C) in G_T, the set the routine computes),
+   against the formal SCM semantics, state by state: with every node outside T held fixed (Q[T] is the distribution of T under do(V \ T)), whatever
+   is done in addition to nodes outside A changes the value of no node of A - so the distribution of A under do(V \ A) is the A-marginal of Q[T]
+   in every structural causal model over the graph. *)
+Theorem C17_lemma3_the_ancestral_set_ignores_the_rest_of_the_district
+  (g : mg nat) {D : Type} (U : Type) (f : nat -> (nat -> D) -> U -> D) (rho : nat * bool -> D) order :
+  local g U f -> is_topo g order = true ->
+  forall (T C : list nat) ivs extra u x x',
+    (forall v, In v (nodes g) -> ~ In v T -> In v (map fst ivs)) ->
+    (forall i, In i extra -> ~ In (fst i) (ancestors_inclusive (subgraph g T) C)) ->
+    solution g U f rho ivs u x -> solution g U f rho (ivs ++ extra) u x' ->
+    forall v, In v (nodes g) -> In v (ancestors_inclusive (subgraph g T) C) -> x v = x' v.
+Proof. intros Hl Ho T C ivs extra u x x'. exact (lemma3_same_values g U f rho Hl order Ho T C ivs extra u x x'). Qed.
+
+(* not vacuous: 0 -> 1 -> 2, T = {1, 2}, C = {1}: A = {1}; doing something to 2 leaves 1 as it is *)
+Example C17_lemma3_not_vacuous :
+  let g := MG [0; 1; 2] [(0, 1); (1, 2)] [(1, 2)] in
+  let f := fun (v : nat) (x : nat -> bool) (u : bool) => match v with 1 => xorb (x 0) u | 2 => x 1 | _ => u end in
+  let rho := fun i : nat * bool => snd i in
+  ancestors_inclusive (subgraph g [1; 2]) [1] = [1] /\ is_topo g [0; 1; 2] = true /\ local g bool f /\
+  forall u, solve bool f rho [0; 1; 2] [(0, true)] u 1 = solve bool f rho [0; 1; 2] ([(0, true)] ++ [(2, false)]) u 1.
+Proof.
+  intros g f rho.
+  assert (Hl : local g bool f).
+  { intros v x x' u H. destruct v as [|[|[|v]]]; cbn; [reflexivity|f_equal; apply H; cbn; auto|apply H; cbn; auto|reflexivity]. }
+  split; [reflexivity|split; [reflexivity|split; [exact Hl|]]]. intros u.
+  apply (lemma3_same_values g bool f rho Hl [0; 1; 2] eq_refl [1; 2] [1] [(0, true)] [(2, false)] u).
+  - intros v [<-|[<-|[<-|[]]]] Hn; [left; reflexivity|exfalso; apply Hn; left; reflexivity|exfalso; apply Hn; right; left; reflexivity].
+  - intros i [<-|[]]. change (~ In 2 [1]). intros [E|[]]. discriminate.
+  - apply (ScmP.solution_exists g bool f rho Hl [0; 1; 2] eq_refl).
+  - apply (ScmP.solution_exists g bool f rho Hl [0; 1; 2] eq_refl).
+  - right. left. reflexivity.
+  - left. reflexivity.
+Qed.
+
+Print Assumptions C17_lemma3_the_ancestral_set_ignores_the_rest_of_the_district.
+Print Assumptions C17_lemma3_not_vacuous.
